@@ -239,6 +239,6 @@ def _explore(ctx, cases):
     finally:
         mon.close()
     bad = ctx.model_mismatches(HEADER, terms, CHECKER, chunk=150)
-    for i in bad:
-        ctx.disagree(terms[i], 'see case term', ctx.model_eval(HEADER, 'run_case (fst %s)' % terms[i])[:400],
+    for k, i in enumerate(bad):
+        ctx.disagree(terms[i], 'see case term', ctx.model_eval(HEADER, 'run_case (fst %s)' % terms[i])[:400] if k < 3 else '',
                      'C20 weights: inject_default_values/StatusMonitor vs Weights.Model.run_case')
